@@ -53,6 +53,7 @@ type CheckCfg struct {
 type GenCfg struct {
 	Spec       string   `json:"spec"`        // relative to the verif root
 	Args       []string `json:"args"`        // e.g. ["generate","model"]
+	More       [][]string `json:"more"`      // further generator invocations into the same module (e.g. ["generate","client"])
 	HarnessDir string   `json:"harness_dir"` // relative to the verif root; holds <package>/*.go
 	LoadRepo   bool     `json:"load_repo"`   // generate, but check a package of the repository: harnesses read the generated files (vHostFile)
 }
@@ -94,13 +95,15 @@ func prepareGen(cfg CheckCfg, repo, buildDir string) (string, error) {
 	if sum, err := os.ReadFile(filepath.Join(repo, "go.sum")); err == nil {
 		os.WriteFile(filepath.Join(gen, "go.sum"), sum, 0o644)
 	}
-	args := append([]string{}, cfg.Gen.Args...)
-	args = append(args, "-q", "-f", filepath.Join(verifRoot, cfg.Gen.Spec), "-t", gen)
-	c2 := exec.Command(bin, args...)
-	c2.Dir = gen
-	c2.Env = append(os.Environ(), goEnv...)
-	if out, err := c2.CombinedOutput(); err != nil {
-		return "", fmt.Errorf("generator failed: %v\n%s", err, out)
+	for _, cmdArgs := range append([][]string{cfg.Gen.Args}, cfg.Gen.More...) {
+		args := append([]string{}, cmdArgs...)
+		args = append(args, "-q", "-f", filepath.Join(verifRoot, cfg.Gen.Spec), "-t", gen)
+		c2 := exec.Command(bin, args...)
+		c2.Dir = gen
+		c2.Env = append(os.Environ(), goEnv...)
+		if out, err := c2.CombinedOutput(); err != nil {
+			return "", fmt.Errorf("generator failed (%v): %v\n%s", cmdArgs, err, out)
+		}
 	}
 	return gen, nil
 }
